@@ -428,6 +428,8 @@ def check_precision(prog, rep, m):
         f = m.funcs.get(fname)
         if f is None:
             continue
+        from ..inline import inline_view as _iv
+        f = _iv(prog, f, keep=('_bin',), allow_loops=True)          # the breaks may be built in helpers: read in place
         bcalls = [c for c in calls(f.node) if c in f.own_nodes() and short(c) == '_bin' and _arg_of(prog, f, m, c, 1) is not None]
         # the local that holds the maximum of the finite cells (whatever it is called): the one assigned from max / nanmax of
         # the finite part of a local array
@@ -561,6 +563,8 @@ def check_formulas(prog, rep, m):
     g = m.funcs.get('_run_equal_interval')
     if g is None:
         raise AnalysisIncomplete('_run_equal_interval not found')
+    from ..inline import inline_view as _iv
+    g = _iv(prog, g, keep=('_bin',), allow_loops=True)              # range and cuts may be computed in helpers: read in place
     # the locals by what they hold, not by their names: the maximum / minimum are assigned from nanmax / nanmin, the width
     # is the local whose value is (max - min) / k, the cuts are the locals built from an arange
     la = g.local_assigns()
